@@ -8,6 +8,7 @@ import (
 	_ "github.com/crossplane/crossplane/verifsim/props/c01"
 	_ "github.com/crossplane/crossplane/verifsim/props/c02"
 	_ "github.com/crossplane/crossplane/verifsim/props/c03"
+	_ "github.com/crossplane/crossplane/verifsim/props/c04"
 	_ "github.com/crossplane/crossplane/verifsim/props/c05"
 	_ "github.com/crossplane/crossplane/verifsim/props/c06"
 	_ "github.com/crossplane/crossplane/verifsim/props/c07"
